@@ -745,6 +745,11 @@ pub fn run_plan(ctx: &mut Ctx, sc: &Value, plan: &Value, tag: &str) -> Sub {
                     st2["to"] = json!(format!("{}-retry", t));
                 }
                 let before = ex.it.out.viols.len();
+                // temp files the faulted attempt could not unlink are not the retry's doing
+                let leftovers = ex.sub.events.iter().any(|e| e.action != Action::Exec && matches!(e.sys.nr, SYS_UNLINK | SYS_UNLINKAT));
+                if leftovers {
+                    let _ = std::fs::remove_dir_all(ex.it.cache.join("tmp"));
+                }
                 ex.it.api_step(&st2);
                 for v in ex.it.out.viols.iter_mut().skip(before) {
                     v.sig = format!("retry/{}", v.sig);
